@@ -214,8 +214,9 @@ func constPointFindings(x *in, w int64, stop, panicked bool) []finding {
 	trunc := new(big.Int).Mul(n1, big.NewInt(per/freq))
 	max := big.NewInt(math.MaxInt64)
 	if stop {
-		// legitimate only when the deadline overflows int64:  (hits+1)·per/freq > MaxInt64
-		if exactNum.Cmp(new(big.Int).Mul(max, bf)) <= 0 {
+		// legitimate only when the deadline overflows int64, (hits+1)·per/freq > MaxInt64,
+		// or the hit counter itself cannot be incremented any more
+		if x.Hits != math.MaxUint64 && exactNum.Cmp(new(big.Int).Mul(max, bf)) <= 0 {
 			fs = append(fs, finding{kind: "const_spurious_stop", clause: "stop", what: "stop although nothing overflows",
 				expected: "a wait", observed: "stop"})
 		}
